@@ -325,7 +325,7 @@ import_body_stmts :
     | import_body_stmts import_body_stmt
 
 prefix_stmt: 
-    kywd_prefix string_value token_semi {
+    kywd_prefix string_value statement_end {
         l := yylex.(*lexer)
         l.builder.Prefix(l.stack.peek(), $2)
         if chkErr(yylex, l.builder.LastErr) {
@@ -903,12 +903,12 @@ require_instance_stmt :
     }
 
 status_stmt : 
-    kywd_status kywd_current token_semi
-    | kywd_status kywd_obsolete token_semi
-    | kywd_status kywd_deprecated token_semi
+    kywd_status kywd_current statement_end
+    | kywd_status kywd_obsolete statement_end
+    | kywd_status kywd_deprecated statement_end
 
 fraction_digits_stmt :
-    kywd_fraction_digits int_value token_semi {
+    kywd_fraction_digits int_value statement_end {
         l := yylex.(*lexer)
         l.builder.FractionDigits(l.stack.peek(), $2)
         if chkErr(yylex, l.builder.LastErr) {
@@ -1241,14 +1241,14 @@ list_body_stmts :
     | list_body_stmts list_body_stmt
 
 max_elements : 
-    kywd_max_elements int_value token_semi {
+    kywd_max_elements int_value statement_end {
         l := yylex.(*lexer)        
         l.builder.MaxElements(l.stack.peek(), $2)
         if chkErr(yylex, l.builder.LastErr) {
             goto ret1
         }
     }
-    | kywd_max_elements kywd_unbounded token_semi {
+    | kywd_max_elements kywd_unbounded statement_end {
         l := yylex.(*lexer)
         l.builder.UnBounded(l.stack.peek(), true)
         if chkErr(yylex, l.builder.LastErr) {
@@ -1257,7 +1257,7 @@ max_elements :
     }
 
 min_elements : 
-    kywd_min_elements int_value token_semi {
+    kywd_min_elements int_value statement_end {
         l := yylex.(*lexer)
         l.builder.MinElements(l.stack.peek(), $2)
         if chkErr(yylex, l.builder.LastErr) {
@@ -1307,7 +1307,7 @@ key_stmt:
     }
 
 unique_stmt:    
-    kywd_unique string_value token_semi {
+    kywd_unique string_value statement_end {
         l := yylex.(*lexer)
         l.builder.Unique(l.stack.peek(), $2)
         if chkErr(yylex, l.builder.LastErr) {
@@ -1400,7 +1400,7 @@ leaf_body_stmt :
     | unknown_stmt
 
 mandatory_stmt : 
-    kywd_mandatory bool_value token_semi {
+    kywd_mandatory bool_value statement_end {
         l := yylex.(*lexer)        
         l.builder.Mandatory(l.stack.peek(), $2)
         if chkErr(yylex, l.builder.LastErr) {
@@ -1459,7 +1459,7 @@ bool_value :
     | kywd_false {$$ = false}
 
 config_stmt : 
-    kywd_config bool_value token_semi {
+    kywd_config bool_value statement_end {
         l := yylex.(*lexer)
         l.builder.Config(l.stack.peek(), $2)
         if chkErr(yylex, l.builder.LastErr) {
@@ -1567,7 +1567,7 @@ description :
     }
 
 reference_stmt :
-    kywd_reference string_value token_semi {
+    kywd_reference string_value statement_end {
         l := yylex.(*lexer)
         l.builder.Reference(l.stack.peek(), $2)
         if chkErr(yylex, l.builder.LastErr) {
@@ -1576,7 +1576,7 @@ reference_stmt :
     }
 
 contact_stmt :
-    kywd_contact string_value token_semi {
+    kywd_contact string_value statement_end {
         l := yylex.(*lexer)        
         l.builder.Contact(l.stack.peek(), $2)
         if chkErr(yylex, l.builder.LastErr) {
@@ -1585,7 +1585,7 @@ contact_stmt :
     }
 
 organization_stmt :
-    kywd_organization string_value token_semi {
+    kywd_organization string_value statement_end {
         l := yylex.(*lexer)
         l.builder.Organization(l.stack.peek(), $2)
         if chkErr(yylex, l.builder.LastErr) {
@@ -1594,7 +1594,7 @@ organization_stmt :
     }
 
 yang_ver_stmt : 
-    kywd_yang_version token_string token_semi {
+    kywd_yang_version token_string statement_end {
         l := yylex.(*lexer)
         l.builder.YangVersion(l.stack.peek(), $2)
         if chkErr(yylex, l.builder.LastErr) {
